@@ -454,9 +454,10 @@ Definition stages_ok (w : wf) : bool :=
 
 (* the global variables are also resolved on their own when the configuration is initialised: a cycle among them
    is fatal even when every component shadows them (an undefined name there is not) *)
-Definition gvars_acyclic (w : wf) : bool :=
-  acyclic_b String.eqb
-    (map (fun e => (fst e, filter (fun u => kmem String.eqb u (map fst (w_gvars w))) (snd e))) (w_gvars w)).
+Definition gvar_graph (w : wf) : list (string * list string) :=
+  map (fun e => (fst e, filter (fun u => kmem String.eqb u (map fst (w_gvars w))) (snd e))) (w_gvars w).
+
+Definition gvars_acyclic (w : wf) : bool := acyclic_b String.eqb (gvar_graph w).
 
 Section Accept.
   Variable cs : schema.      (* the regenerated type_flowir_component('full') *)
@@ -502,7 +503,10 @@ Section Accept.
     | DupName (i j : nat)                        (* component i takes the identifier of component j *)
     | UnknownKey (i : nat) (p : list pk) (k : pk) (x : pv)
     | WrongType (i : nat) (p : list pk) (k : pk) (x : pv)
-    | RemoveVar (n : string).                    (* the global variable n is no longer defined *)
+    | RemoveVar (n : string)                     (* the global variable n is no longer defined *)
+    | CyclicVars (scope : option nat) (a b : string).
+        (* the value of variable a additionally mentions variable b: a is a global variable (scope None) or a
+           variable of component i (scope Some i) *)
 
   Definition set_refs (f : list cid -> list cid) (c : comp) : comp :=
     mkComp (c_stage c) (c_name c) (f (c_refs c)) (c_uses c) (c_vars c) (c_doc c).
@@ -510,6 +514,12 @@ Section Accept.
     mkComp (fst i) (snd i) (c_refs c) (c_uses c) (c_vars c) (c_doc c).
   Definition set_doc (f : pv -> pv) (c : comp) : comp :=
     mkComp (c_stage c) (c_name c) (c_refs c) (c_uses c) (c_vars c) (f (c_doc c)).
+
+  Definition set_vars (f : list (string * list string) -> list (string * list string)) (c : comp) : comp :=
+    mkComp (c_stage c) (c_name c) (c_refs c) (c_uses c) (f (c_vars c)) (c_doc c).
+
+  Definition add_mention (a b : string) (vs : list (string * list string)) : list (string * list string) :=
+    map (fun e => if String.eqb (fst e) a then (fst e, snd e ++ [b]) else e) vs.
 
   Definition mutate (m : fault) (w : wf) : wf :=
     match m with
@@ -522,6 +532,8 @@ Section Accept.
                      end
     | UnknownKey i p k x | WrongType i p k x => mkWf (w_gvars w) (upd_nth i (set_doc (pput p k x)) (w_comps w))
     | RemoveVar n => mkWf (filter (fun gv => negb (String.eqb n (fst gv))) (w_gvars w)) (w_comps w)
+    | CyclicVars None a b => mkWf (add_mention a b (w_gvars w)) (w_comps w)
+    | CyclicVars (Some i) a b => mkWf (w_gvars w) (upd_nth i (set_vars (add_mention a b)) (w_comps w))
     end.
 End Accept.
 
